@@ -64,40 +64,59 @@ def run(repo, tier):
     v = R.Lin.v()
     interp = R.Interp(facts)
     try:
-        lo = interp.call('relocate_lo', [v])
-        hi = interp.call('relocate_hi', [v])
+        lo_regions = interp.call_regions('relocate_lo', [v])
+        hi_regions = interp.call_regions('relocate_hi', [v])
     except R.Unsupported as e:
         raise AnalysisError('construct outside the %hi/%lo arithmetic fragment: {}'.format(e))
     rep.count('functions interpreted', 3)
+    rep.analysed['input regions (lo x hi)'] = len(lo_regions) * len(hi_regions)
     lo_line = facts.funcs['relocate_lo'].lineno
     hi_line = facts.funcs['relocate_hi'].lineno
-    L, ml, llo, lhi = R.congruence_and_range(lo)
-    H, mh, hlo, hhi = R.congruence_and_range(hi)
-    rep.sample({'relocate_lo': {'form': repr(L), 'modulus_bits': ml, 'range': [llo, lhi]},
-                'relocate_hi': {'form': repr(H), 'modulus_bits': mh, 'range': [hlo, hhi]}})
-    # (a) lo == v mod 2^12, range
-    rep.check((ml is None or ml >= 12) and (L - v).congruent_zero(12), 'R7.lo-congruent', 'relocate_lo(v) == v (mod 2^12)',
-              lambda: Finding('R7.lo-congruent', 'relocate_lo', 'congruence', '%lo(v) is not congruent to v modulo 2^12: %lo(v) = {}'.format(L), line=lo_line))
-    rep.check(llo is not None and llo >= -2048 and lhi <= 2047, 'R7.lo-range', 'relocate_lo(v) in [-2048, 2047]',
-              lambda: Finding('R7.lo-range', 'relocate_lo', 'range', '%lo(v) ranges over [{}, {}], not a signed 12-bit value'.format(llo, lhi), line=lo_line))
-    # (b) hi == (v >> 12) + v[11] mod 2^20, range
-    want_hi = R.shift_right(v, 12) + R.Lin({11: 1}, 0)
-    rep.check((mh is None or mh >= 20) and (H - want_hi).congruent_zero(20), 'R7.hi-congruent', 'relocate_hi(v) == (v >> 12) + v[11] (mod 2^20)',
-              lambda: Finding('R7.hi-congruent', 'relocate_hi', 'congruence',
-                              '%hi(v) == {} (mod 2^{}), expected (v >> 12) + bit11(v) (mod 2^20)'.format(H, mh), line=hi_line))
-    rep.check(hlo is not None and hlo >= -(1 << 19) and hhi <= (1 << 19) - 1, 'R7.hi-range', 'relocate_hi(v) in [-2^19, 2^19-1]',
-              lambda: Finding('R7.hi-range', 'relocate_hi', 'range', '%hi(v) ranges over [{}, {}], not a signed 20-bit value'.format(hlo, hhi), line=hi_line))
-    # (c) (hi << 12) + lo == v mod 2^32
-    lo_lin = sres_to_lin(lo)
-    if lo_lin is None:
-        rep.fail(Finding('R7.rebuild', 'relocate_lo', 'exactness', '%lo(v) is only known as a residue; (hi << 12) + lo cannot equal v for all v', line=lo_line))
-    else:
-        total = H.scale(1 << 12) + lo_lin - v
-        good = (mh is None or mh + 12 >= 32) and total.congruent_zero(32)
-        rep.check(good, 'R7.rebuild', '(relocate_hi(v) << 12) + relocate_lo(v) == v (mod 2^32) for every integer v',
-                  lambda: Finding('R7.rebuild', 'relocate_hi', 'identity',
-                                  '(%hi(v) << 12) + %lo(v) - v == {} which is not 0 modulo 2^32 (hi known modulo 2^{})'.format(total, mh),
-                                  line=hi_line))
+    want_hi0 = R.shift_right(v, 12) + R.Lin({11: 1}, 0)
+
+    def restrict(lin, subst):
+        for atom, val in subst.items():
+            lin = lin.subst(atom, val)
+        return lin
+    v0 = v
+    for lreg, lsub, lo in lo_regions:
+        v = restrict(v0, lsub)
+        L, ml, llo, lhi = R.congruence_and_range(lo)
+        where = '' if lreg == 'all v' else ' for ' + lreg
+        rep.sample({'relocate_lo': {'region': lreg, 'form': repr(L), 'modulus_bits': ml, 'range': [llo, lhi]}})
+        # (a) lo == v mod 2^12, range
+        rep.check((ml is None or ml >= 12) and (L - v).congruent_zero(12), 'R7.lo-congruent', 'relocate_lo(v) == v (mod 2^12)' + where,
+                  lambda L=L, where=where: Finding('R7.lo-congruent', 'relocate_lo', 'congruence' + where, '%lo(v) is not congruent to v modulo 2^12{}: %lo(v) = {}'.format(where, L), line=lo_line))
+        rep.check(llo is not None and llo >= -2048 and lhi is not None and lhi <= 2047, 'R7.lo-range', 'relocate_lo(v) in [-2048, 2047]' + where,
+                  lambda llo=llo, lhi=lhi, where=where: Finding('R7.lo-range', 'relocate_lo', 'range' + where, '%lo(v) ranges over [{}, {}]{}, not a signed 12-bit value'.format(llo, lhi, where), line=lo_line))
+    for hreg, hsub, hi in hi_regions:
+        v = restrict(v0, hsub)
+        want_hi = restrict(want_hi0, hsub)
+        H, mh, hlo, hhi = R.congruence_and_range(hi)
+        where = '' if hreg == 'all v' else ' for ' + hreg
+        rep.sample({'relocate_hi': {'region': hreg, 'form': repr(H), 'modulus_bits': mh, 'range': [hlo, hhi]}})
+        # (b) hi == (v >> 12) + v[11] mod 2^20, range
+        rep.check((mh is None or mh >= 20) and (H - want_hi).congruent_zero(20), 'R7.hi-congruent', 'relocate_hi(v) == (v >> 12) + v[11] (mod 2^20)' + where,
+                  lambda H=H, mh=mh, where=where: Finding('R7.hi-congruent', 'relocate_hi', 'congruence' + where,
+                                                          '%hi(v) == {} (mod 2^{}){}, expected (v >> 12) + bit11(v) (mod 2^20)'.format(H, mh, where), line=hi_line))
+        rep.check(hlo is not None and hlo >= -(1 << 19) and hhi is not None and hhi <= (1 << 19) - 1, 'R7.hi-range', 'relocate_hi(v) in [-2^19, 2^19-1]' + where,
+                  lambda hlo=hlo, hhi=hhi, where=where: Finding('R7.hi-range', 'relocate_hi', 'range' + where, '%hi(v) ranges over [{}, {}]{}, not a signed 20-bit value'.format(hlo, hhi, where), line=hi_line))
+        # (c) (hi << 12) + lo == v mod 2^32  (lo taken from the unsplit / every lo region: lo does not depend on hi's regions)
+        for lreg, lsub, lo in lo_regions:
+            if set(lsub) & set(hsub) and any(lsub[k] != hsub[k] for k in set(lsub) & set(hsub)):
+                continue      # disjoint regions
+            lo_lin = sres_to_lin(lo)
+            if lo_lin is None:
+                rep.fail(Finding('R7.rebuild', 'relocate_lo', 'exactness', '%lo(v) is only known as a residue; (hi << 12) + lo cannot equal v for all v', line=lo_line))
+                continue
+            both = dict(lsub)
+            both.update(hsub)
+            total = restrict(H.scale(1 << 12) + lo_lin - v0, both)
+            good = (mh is None or mh + 12 >= 32) and total.congruent_zero(32)
+            rep.check(good, 'R7.rebuild', '(relocate_hi(v) << 12) + relocate_lo(v) == v (mod 2^32)' + (where or ' for every integer v'),
+                      lambda total=total, mh=mh, where=where: Finding('R7.rebuild', 'relocate_hi', 'identity' + where,
+                                                                      '(%hi(v) << 12) + %lo(v) - v == {}{} which is not 0 modulo 2^32 (hi known modulo 2^{})'.format(total, where, mh),
+                                                                      line=hi_line))
     # (d) ranges fit the consumers
     sums = all_summaries(facts)
     n = 0
